@@ -609,8 +609,8 @@ unsafe impl Kernel<u8, i8, i32> for Avx2Int8Kernel {
         depth: usize,
         _alpha: f32,
         beta: i32,
-        _a_quant: Option<QuantParams<u8>>,
-        _b_quant: Option<QuantParams<i8>>,
+        a_quant: Option<QuantParams<u8>>,
+        b_quant: Option<QuantParams<i8>>,
     ) {
         let a_data = match a {
             Lhs::Packed(data) => data,
@@ -631,8 +631,8 @@ unsafe impl Kernel<u8, i8, i32> for Avx2Int8Kernel {
             used_cols,
             depth,
             beta != 0, // accumulate
-            a_meta.zero_points,
-            b_meta.zero_points,
+            packing::int8::tile_a_zero_points(a_meta.zero_points, a_quant.map(|q| q.zero_point)),
+            packing::int8::tile_b_zero_points(b_meta.zero_points, b_quant.map(|q| q.zero_point)),
             &a_meta.row_sums,
             &b_meta.col_sums,
             self.isa,
@@ -835,8 +835,8 @@ unsafe impl Kernel<u8, i8, i32> for Avx512Int8Kernel {
         depth: usize,
         _alpha: f32,
         beta: i32,
-        _a_quant: Option<QuantParams<u8>>,
-        _b_quant: Option<QuantParams<i8>>,
+        a_quant: Option<QuantParams<u8>>,
+        b_quant: Option<QuantParams<i8>>,
     ) {
         let a_data = match a {
             Lhs::Packed(data) => data,
@@ -858,8 +858,14 @@ unsafe impl Kernel<u8, i8, i32> for Avx512Int8Kernel {
                 used_cols,
                 depth,
                 beta != 0, // accumulate
-                a_meta.zero_points,
-                b_meta.zero_points,
+                packing::int8::tile_a_zero_points(
+                    a_meta.zero_points,
+                    a_quant.map(|q| q.zero_point),
+                ),
+                packing::int8::tile_b_zero_points(
+                    b_meta.zero_points,
+                    b_quant.map(|q| q.zero_point),
+                ),
                 &a_meta.row_sums,
                 &b_meta.col_sums,
                 vnni_dot,
@@ -875,8 +881,14 @@ unsafe impl Kernel<u8, i8, i32> for Avx512Int8Kernel {
                 used_cols,
                 depth,
                 beta != 0, // accumulate
-                a_meta.zero_points,
-                b_meta.zero_points,
+                packing::int8::tile_a_zero_points(
+                    a_meta.zero_points,
+                    a_quant.map(|q| q.zero_point),
+                ),
+                packing::int8::tile_b_zero_points(
+                    b_meta.zero_points,
+                    b_quant.map(|q| q.zero_point),
+                ),
                 &a_meta.row_sums,
                 &b_meta.col_sums,
                 self.isa, // Use non-VNNI dot product
